@@ -161,6 +161,12 @@ fn real_view(v: &V) -> View {
                 }
                 if children.is_empty() { e.into() } else { e.children(children.iter().map(real_view).collect::<Vec<View>>()).into() }
             }}; }
+            // some components register cleanups that create reactive nodes while their scope is torn down after
+            // the render (nodes without a live owner): the next render must not find them (C12 node count)
+            if tag == "my-element" || tag == "section" {
+                let sc = sycamore_reactive::use_current_scope();
+                sycamore_reactive::on_cleanup(move || sc.run_in(|| { let _ = sycamore_reactive::create_signal(0u8); }));
+            }
             match tag.as_str() {
                 "div" => finish!(div()),
                 "p" => finish!(p()),
